@@ -110,7 +110,8 @@ theorem inversion_untouched (ρ : Nat → ℝ) (s : Nat) (hs : 12 ≤ s) : inver
     simp only [inversionGrad, List.lookup]
     have : ∀ n, n < 12 → (s == n) = false := fun n hn => by simp; omega
     simp [this]
-  unfold Prog.gradR
+  rw [Prog.gradR_of_no_guard _ rfl]
+  unfold Prog.gradRaw
   rw [hl]
 
 /-! ### The twelve slot identities -/
